@@ -30,7 +30,12 @@ Definition c10_domain (v : jval) : sexp :=
   | _ => Lst [e_bool false; Lst []]
   end.
 Definition run_c10 (cmd : str) (args : list sexp) : option sexp :=
-  if str_eqb cmd (lit "c10_json") then
+  if str_eqb cmd (lit "c10_variant_auto") then
+    (* a Variant constructed without a type: [external table; value or ()] *)
+    match args with [e; v] => obind (d_ext e) (fun e => omap (fun v => e_res (e_opt e_str) (json_encode_variant_auto e v)) (d_opt d_uav v)) | _ => None end
+  else if str_eqb cmd (lit "c10_variant_type") then
+    match args with [v] => omap (fun v => e_opt e_Z (variant_type_of v)) (d_uav v) | _ => None end
+  else if str_eqb cmd (lit "c10_json") then
     match args with [e; v] => obind (d_ext e) (fun e => omap (fun v => e_res (e_opt e_str) (json_encode_j e v)) (d_jval v)) | _ => None end
   else if str_eqb cmd (lit "c10_parse") then
     match args with [t] => omap (fun t => e_opt e_jv (jparse t)) (d_str t) | _ => None end
